@@ -146,7 +146,10 @@ def evaluate(profile, base, case):
             continue
         if ev[0] == 'inpub' and profile == 'pub':
             continue
-        w.apply(ev)
+        try:
+            w.apply(ev)
+        except Exception as e:      # noqa
+            return [V('prefix', 'base-history-misbehaves/%s' % base, 'scripted event %r failed with %s: %s' % (ev, type(e).__name__, e))], 'base-broken'
     before = masked_canon(w)
     pend0 = [r.pending for r in w.reqs]
     timers0 = len(w.pending_calls())
